@@ -361,7 +361,8 @@ def phiShapeOk (g : Function) : Bool :=
     φ.incoming.map (·.1) == g.cfg.predecessorIndices b.index &&
     (φ.entry.isSome == (g.cfg.entry == some b.index))))
 
-/-- a definition site: block, position (`none` = a phi node, numbered by its place in the list), scalar -/
+/-- a definition site: block, phi node or instruction, its place in the block's list, for an instruction the
+    place among the scalars it writes, the scalar defined -/
 structure DefSite where
   block : Nat
   phi : Bool
@@ -370,11 +371,9 @@ structure DefSite where
   scalar : Scalar
   deriving DecidableEq, Repr
 
-def enum {α : Type} (l : List α) : List (Nat × α) := (List.range l.length).zip l
-
 def blockDefs (b : Block) : List DefSite :=
-  (enum b.phis).map (fun (k, φ) => ⟨b.index, true, k, 0, φ.out⟩) ++
-  (enum b.instrs).flatMap (fun (k, i) => (enum (opWrites i.op)).map (fun (j, s) => ⟨b.index, false, k, j, s⟩))
+  b.phis.zipIdx.map (fun (φ, k) => ⟨b.index, true, k, 0, φ.out⟩) ++
+  b.instrs.zipIdx.flatMap (fun (i, k) => (opWrites i.op).zipIdx.map (fun (s, j) => ⟨b.index, false, k, j, s⟩))
 
 /-- the definition sites in the blocks reachable from the entry -/
 def reachDefs (g : Function) (cert : Cert) : List DefSite :=
